@@ -7,7 +7,7 @@ RULE = ("a mixed batch (two or three MCS-stage reactions, a rule-based and an in
         "faults injected at the realistic points -- inside MCSMissingGraphAnalyzer.fit (exception, sleep past the 2 s thread wait, "
         "mismatching result lists) per (reaction, search condition) job, and inside FindMissingGraphs.find_missing_parts_pairs "
         "(exception, sleep) per fragment-analysis job: thorough = ALL 64 subsets of the 2x3 search jobs hit by an exception + all 9 "
-        "fragment-job patterns + sampled timeout/uncertain plans; quick = 14 exception subsets, 3 timeout plans, 3 fragment plans.  Each "
+        "fragment-job patterns + sampled timeout/uncertain plans; quick = 14 exception subsets, 3 timeout plans, 4 fragment plans (incl. two overlapping hangs); plus the batch in descending order of result size with faults on its first reaction.  Each "
         "run is compared with the fault-free run: no row lost; rows whose jobs were not hit are identical; every row is either solved "
         "and balanced (RDKit recount) or returned unchanged with a reason; the observed job outcomes are replayed through "
         "Model/McsSelect.find inside Coq; after time-out plans the returned records are compared again after a 3 s grace period.  "
@@ -16,6 +16,7 @@ ASSUMPTIONS = ["faults are injected by wrapping the two analyzers (n_jobs=1, in-
 TRUSTED = ["thread scheduling / ThreadPool.terminate semantics as exercised"]
 BATCH = ["CCOC(=O)C>>CC(=O)O", "CCBr.O>>CCO", "CC(=O)OCC.CN>>CC(=O)NC", "CCO>>CCO", "CC(=O)Oc1ccccc1>>Oc1ccccc1"]
 MCS_POS = [0, 2]        # rows of BATCH whose search jobs are hit (row 4 is an unaffected MCS-stage row)
+BATCH2 = ["CC(=O)Oc1ccccc1>>Oc1ccccc1", "CCBr.O>>CCO", "CC(=O)OCC.CN>>CC(=O)NC", "CCO>>CCO", "CCOC(=O)C>>CC(=O)O"]   # largest result first
 
 
 def check_run(ctx, rec, ref):
@@ -55,7 +56,7 @@ def run(ctx):
         plans.append({"search": {k: "raise" for k in s}})
     gp = [p for p in itertools.product([None, "raise", "timeout"], repeat=2) if any(p)]
     if ctx.quick():
-        gp = [("raise", None), (None, "raise"), ("timeout", None)]
+        gp = [("raise", None), (None, "raise"), ("timeout", None), ("timeout", "timeout")]   # two overlapping hangs before a healthy reaction
     for a, b in gp:
         plans.append({"graph": {str(p): v for p, v in zip(MCS_POS, (a, b)) if v}})
     tp = []
@@ -64,8 +65,22 @@ def run(ctx):
         tp.append({"search": {k: rng.choice(["timeout", "uncertain", "timeout"]) for k in s}})
     tp.append({"search": {"0:0": "timeout", "0:1": "raise", "0:2": "uncertain"}})
     plans += tp
-    items = [(BATCH, p, 4.0 if any(v == "timeout" for d in p.values() for v in d.values()) else 0) for p in plans]
-    recs, _ = pipe.cached("c11_%s_%d" % (ctx.tier, ctx.seed), lambda: mcs.run_many(items, procs=8))
+    def grace(p):
+        if any(v == "timeout" for v in p.get("graph", {}).values()):
+            return 7.0
+        return 4.0 if any(v == "timeout" for v in p.get("search", {}).values()) else 0
+    items = [(BATCH, p, grace(p)) for p in plans]
+    # the same reactions with the largest common substructure FIRST: a fault on the first reaction in a non-final condition, healthy
+    # reactions with smaller results behind it (a position-based mix-up attaches the earlier, larger result)
+    plans2 = [{}, {"search": {"0:0": "timeout"}}, {"search": {"0:1": "timeout"}}, {"search": {"0:0": "timeout", "0:1": "timeout"}},
+              {"search": {"0:0": "raise"}}, {"search": {"0:0": "uncertain", "0:1": "raise"}}, {"graph": {"0": "timeout", "2": "timeout"}}]
+    items2 = [(BATCH2, p, grace(p)) for p in plans2]
+    recs, _ = pipe.cached("c11_%s_%d" % (ctx.tier, ctx.seed), lambda: mcs.run_many(items + items2, procs=8))
+    recs, recs2 = recs[:len(items)], recs[len(items):]
+    for rec in recs2[1:]:
+        ctx.nontrivial.add(json.dumps(["descending", rec["plan"]], sort_keys=True))
+        check_run(ctx, rec, recs2[0])
+    ctx.count("plans", "descending_size_batch", len(plans2))
     ref = recs[0]
     ctx.count("plans", "total", len(plans))
     cases, cmeta = [], []
